@@ -6,6 +6,7 @@ import (
 	"fmt"
 	"strconv"
 	"strings"
+	"time"
 
 	"github.com/kercylan98/vivid"
 	"github.com/kercylan98/vivid/internal/actor"
@@ -15,9 +16,10 @@ import (
 )
 
 // script tokens: "S" stash the next numbered message, "P" process it, "U" Unstash(), "U<n>" Unstash(n)
-func stashScenario(script []string, bounds []int) *vexp.Scenario {
+// viaSched: the numbered messages reach the actor through the Scheduler API (Once from another actor) instead of Tell
+func stashScenario(script []string, bounds []int, viaSched bool) *vexp.Scenario {
 	return &vexp.Scenario{
-		Name:   "stash/" + strings.Join(script, ","),
+		Name:   map[bool]string{false: "stash/", true: "stash-scheduled/"}[viaSched] + strings.Join(script, ","),
 		Family: "stash",
 		Cfg:    vsys.Coarse(60000),
 		Bounds: bounds,
@@ -75,8 +77,13 @@ func stashScenario(script []string, bounds []int) *vexp.Scenario {
 				}
 			}
 			w.SpawnRoot(t)
-			vrt.QuiesceNoTimers()
 			ref := w.Ref("/t")
+			w.SpawnRoot(&vsys.Script{Name: "sch", OnMsg: func(a *vsys.Act, ctx vivid.ActorContext, m vsys.Msg) {
+				if err := ctx.Scheduler().Once(ref, time.Millisecond, vsys.Msg{ID: m.ID}, vivid.WithSchedulerReference(m.ID)); err != nil {
+					x.Fail("harness", "Once: %v", err)
+				}
+			}})
+			vrt.QuiesceNoTimers()
 			for i, tok := range script {
 				id := tok
 				switch tok[:1] {
@@ -86,6 +93,13 @@ func stashScenario(script []string, bounds []int) *vexp.Scenario {
 					if len(tok) > 1 {
 						id = fmt.Sprintf("%s#%d", tok, i)
 					}
+				}
+				if viaSched && (tok[:1] == "S" || tok[:1] == "P") {
+					w.Sys.Tell(w.Ref("/sch"), vsys.Msg{ID: id})
+					vrt.SetHorizon(vrt.Now() + int64(2*time.Millisecond))
+					vrt.Quiesce() // the job fires 1 ms later and is delivered before the next token is sent
+					vrt.SetHorizon(0)
+					continue
 				}
 				w.Sys.Tell(ref, vsys.Msg{ID: id})
 				vrt.Yield()
@@ -211,7 +225,16 @@ func build(tier string) []*vexp.Scenario {
 				}
 			}
 			if hasS && hasU {
-				out = append(out, stashScenario(append([]string(nil), s...), bounds))
+				out = append(out, stashScenario(append([]string(nil), s...), bounds, false))
+				nS := 0
+				for _, t := range s {
+					if t == "S" {
+						nS++
+					}
+				}
+				if nS >= 2 && len(s) <= 4 {
+					out = append(out, stashScenario(append([]string(nil), s...), []int{0}, true))
+				}
 			}
 		}
 		if len(s) == maxLen {
